@@ -176,6 +176,18 @@ fn encrypt_chunks<T: Read, U: Write>(
     Ok(())
 }
 
+/// Verification hook: public pass-through to the private chunk encryption loop.
+#[cfg(feature = "verif")]
+pub fn verif_encrypt_chunks<T: Read, U: Write>(
+    plaintext: &mut T,
+    ciphertext: &mut U,
+    key: &[u8],
+    aad: &[u8],
+    chunk_size: u32,
+) -> Result<(), EncryptError> {
+    encrypt_chunks(plaintext, ciphertext, key, aad, chunk_size)
+}
+
 fn read_err(err: std::io::Error) -> EncryptError {
     EncryptError::IORead(err)
 }
